@@ -662,12 +662,19 @@ def gen_handshake(r, kind, opts, ok=True):
         else:
             parts += [struct.pack("!I", 1)]
     else:
-        types = [2] if use_vnc else [1]
+        use_dh = (not use_vnc) and r.random() < .15
+        types = [2] if use_vnc else ([30] if use_dh else [1])
         extra = r.sample([5, 16, 18, 19, 22, 129], r.randint(0, 3))
         types = types + extra
         r.shuffle(types)
         parts += [bytes([len(types)]), bytes(types)]
-        if use_vnc:
+        if use_dh:
+            # Apple Remote Desktop (Diffie-Hellman, type 30): generator, key length, modulus, server key; then the result
+            klen = r.choice([1, 2, 8, 16, 128])
+            mod = (r.getrandbits(8 * klen) | 1 | (1 << (8 * klen - 1))).to_bytes(klen, "big")
+            skey = r.getrandbits(8 * klen).to_bytes(klen, "big")
+            parts += [struct.pack("!HH", r.choice([2, 3, 5]), klen), mod, skey, struct.pack("!I", 0)]
+        elif use_vnc:
             parts += [chal, struct.pack("!I", 0)]
             authresp = des_response(pw, chal)
         elif eff == (3, 8):
